@@ -24,7 +24,10 @@ ALL = [f'C{i:02d}' for i in range(1, 21)]
 def sh(cmd, cwd=None, env=None, timeout=900):
     e = dict(os.environ)
     e.update(env or {})
-    p = subprocess.run(cmd, shell=True, cwd=cwd, capture_output=True, text=True, timeout=timeout, env=e)
+    try:
+        p = subprocess.run(cmd, shell=True, cwd=cwd, capture_output=True, text=True, timeout=timeout, env=e)
+    except subprocess.TimeoutExpired as ex:
+        return 124, f'timeout after {timeout}s: {ex.stdout or ""}'
     return p.returncode, p.stdout + p.stderr
 
 
@@ -73,10 +76,12 @@ def main():
                 items.append((n, os.path.join(root, n)))
     else:
         for g in sorted(os.listdir(a.src)):
-            if not re.fullmatch(r'R\d+', g) or (a.names and g not in a.names):
+            if not re.fullmatch(r'R\d+', g):
                 continue
             for k in sorted(os.listdir(os.path.join(a.src, g))):
                 d = os.path.join(a.src, g, k)
+                if a.names and g not in a.names and f'{g}-{k}' not in a.names:
+                    continue
                 if os.path.isdir(d) and os.path.exists(os.path.join(d, 'patch.diff')):
                     items.append((f'{g}-{k}', d))
     with ThreadPoolExecutor(max_workers=a.j) as ex:
